@@ -23,6 +23,7 @@ class StandIn:
         self.evaluations = 0
         self.nontrivial = set()
         self.failures = []
+        self.fail_counts = {}
         self.samples = []
         self.t0 = time.time()
         import soundevent
@@ -36,13 +37,16 @@ class StandIn:
             self.samples.append(sample)
 
     def fail(self, key, what, **detail):
-        if len(self.failures) < 50:
+        """at most 3 recorded per failure class (first three ':'-fields of the key), 90 in total; all are counted"""
+        klass = ":".join(key.split(":")[:3])
+        self.fail_counts[klass] = self.fail_counts.get(klass, 0) + 1
+        if self.fail_counts[klass] <= 3 and len(self.failures) < 90:
             self.failures.append(dict(key=key, what=what, **detail))
 
     def finish(self, rule):
         out = dict(standin=self.name, bound=self.bound, evaluations=self.evaluations,
                    distinct_nontrivial=len(self.nontrivial), rule=rule, samples=self.samples,
-                   failures=self.failures, repo_file=self.repo_file, wall_s=round(time.time() - self.t0, 2))
+                   failures=self.failures, failure_counts=self.fail_counts, repo_file=self.repo_file, wall_s=round(time.time() - self.t0, 2))
         with open(self.args.out, "w") as f:
             json.dump(out, f, default=str)
         return 0
